@@ -574,4 +574,332 @@ theorem setSource_ne_panic (sf : SymFile) (fr : Frame) (fid line address base : 
   · exact ⟨_, rfl⟩
   · rw [checkedAdd_of_le _ h]; exact ⟨_, rfl⟩
 
+/-! ### the derived orders -/
+
+theorem lexLe_refl (a : List Nat) : lexLe a a = true := by
+  induction a with
+  | nil => rfl
+  | cons x xs ih => simp [lexLe, ih]
+
+theorem lexLe_total (a b : List Nat) : lexLe a b = true ∨ lexLe b a = true := by
+  induction a generalizing b with
+  | nil => left; rfl
+  | cons x xs ih =>
+    cases b with
+    | nil => right; rfl
+    | cons y ys =>
+      simp only [lexLe, Bool.or_eq_true, Bool.and_eq_true, decide_eq_true_eq, beq_iff_eq]
+      rcases Nat.lt_trichotomy x y with h | h | h
+      · left; left; exact h
+      · rcases ih ys with h' | h'
+        · left; right; exact ⟨h, h'⟩
+        · right; right; exact ⟨h.symm, h'⟩
+      · right; left; exact h
+
+theorem lexLe_trans (a b c : List Nat) : lexLe a b = true → lexLe b c = true → lexLe a c = true := by
+  induction a generalizing b c with
+  | nil => intros; rfl
+  | cons x xs ih =>
+    cases b with
+    | nil => intro h; simp [lexLe] at h
+    | cons y ys =>
+      cases c with
+      | nil => intro _ h; simp [lexLe] at h
+      | cons z zs =>
+        simp only [lexLe, Bool.or_eq_true, Bool.and_eq_true, decide_eq_true_eq, beq_iff_eq]
+        intro h1 h2
+        rcases h1 with h1 | ⟨h1, h1'⟩ <;> rcases h2 with h2 | ⟨h2, h2'⟩
+        · left; omega
+        · left; omega
+        · left; omega
+        · right; exact ⟨by omega, ih ys zs h1' h2'⟩
+
+theorem lexLe_antisymm (a b : List Nat) : lexLe a b = true → lexLe b a = true → a = b := by
+  induction a generalizing b with
+  | nil => cases b with
+    | nil => intros; rfl
+    | cons y ys => intro _ h; simp [lexLe] at h
+  | cons x xs ih =>
+    cases b with
+    | nil => intro h; simp [lexLe] at h
+    | cons y ys =>
+      simp only [lexLe, Bool.or_eq_true, Bool.and_eq_true, decide_eq_true_eq, beq_iff_eq]
+      intro h1 h2
+      rcases h1 with h1 | ⟨h1, h1'⟩ <;> rcases h2 with h2 | ⟨h2, h2'⟩
+      · omega
+      · omega
+      · omega
+      · rw [h1, ih ys h1' h2']
+
+theorem pubLe_iff (p q : Pub) : pubLe p q = true ↔
+    p.addr < q.addr ∨ (p.addr = q.addr ∧
+      ((lexLe p.name q.name = true ∧ p.name ≠ q.name) ∨ (p.name = q.name ∧ p.psize ≤ q.psize))) := by
+  simp [pubLe]
+
+theorem pubLe_refl (p : Pub) : pubLe p p = true := by
+  rw [pubLe_iff]; right; exact ⟨rfl, .inr ⟨rfl, Nat.le_refl _⟩⟩
+
+theorem pubLe_total (p q : Pub) : (pubLe p q || pubLe q p) = true := by
+  rw [Bool.or_eq_true, pubLe_iff, pubLe_iff]
+  rcases Nat.lt_trichotomy p.addr q.addr with h | h | h
+  · left; left; exact h
+  · by_cases hn : p.name = q.name
+    · rcases Nat.le_total p.psize q.psize with h' | h'
+      · left; right; exact ⟨h, .inr ⟨hn, h'⟩⟩
+      · right; right; exact ⟨h.symm, .inr ⟨hn.symm, h'⟩⟩
+    · rcases lexLe_total p.name q.name with h' | h'
+      · left; right; exact ⟨h, .inl ⟨h', hn⟩⟩
+      · right; right; exact ⟨h.symm, .inl ⟨h', fun e => hn e.symm⟩⟩
+  · right; left; exact h
+
+theorem pubLe_trans (p q s : Pub) : pubLe p q = true → pubLe q s = true → pubLe p s = true := by
+  rw [pubLe_iff, pubLe_iff, pubLe_iff]
+  intro h1 h2
+  rcases h1 with h1 | ⟨h1, h1'⟩ <;> rcases h2 with h2 | ⟨h2, h2'⟩
+  · left; omega
+  · left; omega
+  · left; omega
+  · right
+    refine ⟨by omega, ?_⟩
+    rcases h1' with ⟨a1, a2⟩ | ⟨a1, a2⟩ <;> rcases h2' with ⟨b1, b2⟩ | ⟨b1, b2⟩
+    · left
+      refine ⟨lexLe_trans _ _ _ a1 b1, ?_⟩
+      intro e
+      rw [← e] at b1
+      exact a2 (lexLe_antisymm _ _ a1 b1)
+    · left; rw [← b1]; exact ⟨a1, a2⟩
+    · left; rw [a1]; exact ⟨b1, b2⟩
+    · right; exact ⟨a1.trans b1, by omega⟩
+
+/-- `p` is the nearest preceding PUBLIC of `a`: the greatest PUBLIC record, in the order the
+    parser sorts them by (address, then name, then parameter size), among those at or below `a`.
+    In particular no PUBLIC lies strictly between `p.addr` and `a`. -/
+def NearestPublic (pubs : List Pub) (a : Nat) (p : Pub) : Prop :=
+  p ∈ pubs ∧ p.addr ≤ a ∧ ∀ q ∈ pubs, q.addr ≤ a → pubLe q p = true
+
+theorem NearestPublic.addr_max {pubs : List Pub} {a : Nat} {p : Pub} (h : NearestPublic pubs a p) :
+    ∀ q ∈ pubs, q.addr ≤ a → q.addr ≤ p.addr := by
+  intro q hq hqa
+  have := (pubLe_iff q p).mp (h.2.2 q hq hqa)
+  omega
+
+theorem findNearestPublic_spec (pubs : List Pub) (a : Nat) :
+    (∀ p, findNearestPublic (pubs.mergeSort pubLe) a = some p → NearestPublic pubs a p) ∧
+    (findNearestPublic (pubs.mergeSort pubLe) a = none → ∀ q ∈ pubs, a < q.addr) := by
+  have hsorted : (pubs.mergeSort pubLe).Pairwise (fun x y => pubLe x y = true) :=
+    List.pairwise_mergeSort pubLe_trans pubLe_total pubs
+  constructor
+  · intro p h
+    unfold findNearestPublic at h
+    obtain ⟨hp, as, bs, hsplit, has⟩ := List.find?_eq_some_iff_append.mp h
+    have hrev : pubs.mergeSort pubLe = bs.reverse ++ p :: as.reverse := by
+      have := congrArg List.reverse hsplit
+      simpa using this
+    rw [hrev] at hsorted
+    have hmem : ∀ q, q ∈ pubs ↔ q ∈ bs.reverse ++ p :: as.reverse := by
+      intro q; rw [← hrev]; exact List.mem_mergeSort.symm
+    refine ⟨(hmem p).mpr (by simp), by simpa using hp, ?_⟩
+    intro q hq hqa
+    rcases List.mem_append.mp ((hmem q).mp hq) with hq | hq
+    · exact (List.pairwise_append.mp hsorted).2.2 q hq p List.mem_cons_self
+    · rcases List.mem_cons.mp hq with rfl | hq
+      · exact pubLe_refl _
+      · have := has q (List.mem_reverse.mp hq)
+        simp at this
+        omega
+  · intro h q hq
+    unfold findNearestPublic at h
+    have := List.find?_eq_none.mp h q (List.mem_reverse.mpr (List.mem_mergeSort.mpr hq))
+    simp at this
+    omega
+
+/-! ### binary search over a sorted sequence: the last element that is not `Greater` -/
+
+theorem bsLoop_upper (probe : Nat → Ordering) (n : Nat)
+    (hmono : ∀ i j, i ≤ j → j < n → probe i = .gt → probe j = .gt)
+    (fuel base size : Nat) (hs : 1 ≤ size) (hf : size ≤ fuel + 1) (hn : base + size ≤ n)
+    (hup : ∀ j, base + size ≤ j → j < n → probe j = .gt) :
+    ∀ j, bsLoop probe fuel base size < j → j < n → probe j = .gt := by
+  induction fuel generalizing base size with
+  | zero =>
+    simp only [bsLoop]
+    intro j hj hjn
+    exact hup j (by omega) hjn
+  | succ fuel ih =>
+    simp only [bsLoop]
+    split
+    · rename_i h1
+      have hh : 1 ≤ size - size / 2 := by omega
+      have hf' : size - size / 2 ≤ fuel + 1 := by omega
+      split
+      · rename_i hgt
+        apply ih base (size - size / 2) hh hf' (by omega)
+        intro j hj hjn
+        exact hmono (base + size / 2) j (by omega) hjn hgt
+      · apply ih (base + size / 2) (size - size / 2) hh hf' (by omega)
+        intro j hj hjn
+        exact hup j (by omega) hjn
+    · intro j hj hjn
+      exact hup j (by omega) hjn
+
+theorem binarySearchBy_mono {n : Nat} {probe : Nat → Ordering}
+    (hmono : ∀ i j, i ≤ j → j < n → probe i = .gt → probe j = .gt) :
+    (∀ i, binarySearchBy n probe = .found i →
+        i < n ∧ probe i = .eq ∧ ∀ j, i < j → j < n → probe j = .gt) ∧
+    (binarySearchBy n probe = .notFound 0 → ∀ j, j < n → probe j = .gt) ∧
+    (∀ i, binarySearchBy n probe = .notFound (i + 1) →
+        i < n ∧ probe i = .lt ∧ ∀ j, i < j → j < n → probe j = .gt) := by
+  unfold binarySearchBy
+  by_cases hn : n = 0
+  · simp only [hn, if_true]
+    refine ⟨?_, ?_, ?_⟩
+    · intro i h; cases h
+    · intro _ j hj; omega
+    · intro i h; cases h
+  · simp only [hn, if_false]
+    have hr := bsLoop_range probe n 0 n (by omega)
+    have hg := bsLoop_notgt probe n 0 n
+    have hu := bsLoop_upper probe n hmono n 0 n (by omega) (by omega) (by omega)
+      (by intro j hj hjn; omega)
+    generalize bsLoop probe n 0 n = L at hr hg hu
+    refine ⟨?_, ?_, ?_⟩
+    · intro i h
+      split at h
+      · rename_i he; cases h; exact ⟨by omega, he, hu⟩
+      · cases h
+      · cases h
+    · intro h j hj
+      split at h
+      · cases h
+      · cases h
+      · rename_i he
+        simp only [BS.notFound.injEq] at h
+        subst h
+        by_cases hj0 : j = 0
+        · subst hj0; exact he
+        · exact hu j (by omega) hj
+    · intro i h
+      split at h
+      · cases h
+      · rename_i he
+        simp only [BS.notFound.injEq] at h
+        have : L = i := by omega
+        subst this
+        exact ⟨by omega, he, hu⟩
+      · rename_i he
+        simp only [BS.notFound.injEq] at h
+        rcases hg with hg | hg
+        · omega
+        · exact absurd he hg
+
+/-! ### table entries are records -/
+
+theorem keep_some_loval (src : List Entry) (l : Entry) (xs : List Entry)
+    (hl : ∃ s ∈ src, s.1.lo = l.1.lo ∧ s.2 = l.2) (hx : ∀ e ∈ xs, e ∈ src) :
+    ∀ e' ∈ keep (some l) xs, ∃ s ∈ src, s.1.lo = e'.1.lo ∧ s.2 = e'.2 := by
+  induction xs generalizing l with
+  | nil => intro e' he'; simp [keep] at he'; subst he'; exact hl
+  | cons e rest ih =>
+    obtain ⟨lr, lv⟩ := l
+    have hrest : ∀ e ∈ rest, e ∈ src := fun x h => hx x (List.mem_cons_of_mem _ h)
+    simp only [keep]
+    split
+    · exact ih (lr, lv) hl hrest
+    · split
+      · exact ih _ (by simpa using hl) hrest
+      · intro e' he'
+        rcases List.mem_cons.mp he' with rfl | he'
+        · exact hl
+        · exact ih e ⟨e, hx e List.mem_cons_self, rfl, rfl⟩ hrest e' he'
+
+/-- every entry of a table built by the safe builder has the start and the value of an input entry -/
+theorem keep_loval (xs : List Entry) : ∀ e' ∈ keep none xs, ∃ s ∈ xs, s.1.lo = e'.1.lo ∧ s.2 = e'.2 := by
+  cases xs with
+  | nil => intro e' he'; simp [keep] at he'
+  | cons e rest =>
+    simp only [keep]
+    exact keep_some_loval (e :: rest) e rest ⟨e, List.mem_cons_self, rfl, rfl⟩
+      (fun x h => List.mem_cons_of_mem _ h)
+
+/-- every entry of the function table stands for a stored function with a valid range that
+    starts where the entry starts -/
+theorem ftab_entry {bs : List BFunc} {e : Entry} (he : e ∈ safeVecP (funcInput bs)) :
+    ∃ g, bs[e.2]? = some g ∧ g ∈ bs ∧ g.addr = e.1.lo ∧ 0 < g.size ∧ g.addr + g.size ≤ U64MAX := by
+  obtain ⟨s, hs, hlo, hv⟩ := keep_loval _ e he
+  have hs' : s ∈ funcInput bs := List.mem_mergeSort.mp hs
+  simp only [funcInput, validOnly, List.mem_filterMap, List.mem_map, Option.map_eq_some_iff] at hs'
+  obtain ⟨x, ⟨b, hb, rfl⟩, r', hr', rfl⟩ := hs'
+  obtain ⟨g, hg, hkey⟩ := funcVal_get hb
+  simp only [BFunc.key, Prod.mk.injEq] at hkey
+  obtain ⟨ha, hsz, -⟩ := hkey
+  obtain ⟨w1, w2, w3, w4⟩ := mkRange_wf hr'
+  have hpos : 0 < b.size ∧ b.addr + b.size ≤ U64MAX := by
+    unfold mkRange at hr'; split at hr'
+    · cases hr'
+    · split at hr'
+      · cases hr'
+      · omega
+  simp only at hlo hv
+  refine ⟨g, by rw [← hv]; exact hg, List.mem_of_getElem? hg, by omega, by omega, by omega⟩
+
+/-! ### the nearest previous FUNC -/
+
+theorem sep_lo_mono {m : List Entry} (hs : Sep m) {i j : Nat} {x y : Entry}
+    (hi : m[i]? = some x) (hj : m[j]? = some y) (hij : i ≤ j) : x.1.lo ≤ y.1.lo := by
+  by_cases h : i = j
+  · subst h; rw [hi] at hj; cases hj; omega
+  · have hi' := List.getElem?_eq_some_iff.mp hi
+    have hj' := List.getElem?_eq_some_iff.mp hj
+    obtain ⟨hil, rfl⟩ := hi'
+    obtain ⟨hjl, rfl⟩ := hj'
+    have := List.pairwise_iff_getElem.mp hs.pairwise i j hil hjl (by omega)
+    have hw := (hs.wf _ (List.getElem_mem hil)).1
+    omega
+
+/-- what `prev_func` is, for a normalized table: nothing if no entry starts below the address (or
+    one starts exactly at it), else the entry with the greatest start below the address -/
+theorem prevEntry_spec (m : List Entry) (hs : Sep m) (a : Nat) :
+    (∀ i, binarySearchBy m.length (probeOf m fun e => cmpNat e.1.lo a) = .found i →
+        ∃ e, m[i]? = some e ∧ e.1.lo = a) ∧
+    (binarySearchBy m.length (probeOf m fun e => cmpNat e.1.lo a) = .notFound 0 →
+        ∀ e ∈ m, a < e.1.lo) ∧
+    (∀ i, binarySearchBy m.length (probeOf m fun e => cmpNat e.1.lo a) = .notFound (i + 1) →
+        ∃ e, m[i]? = some e ∧ e.1.lo < a ∧ ∀ e' ∈ m, e'.1.lo ≤ a → e'.1.lo ≤ e.1.lo) := by
+  have hmono : ∀ i j, i ≤ j → j < m.length →
+      probeOf m (fun e => cmpNat e.1.lo a) i = .gt → probeOf m (fun e => cmpNat e.1.lo a) j = .gt := by
+    intro i j hij hj hgt
+    obtain ⟨x, hx, hcx⟩ := probeOf_some hgt (by omega)
+    obtain ⟨y, hy, hcy⟩ := probeOf_some (o := probeOf m (fun e => cmpNat e.1.lo a) j) rfl hj
+    rw [← hcy]
+    have := sep_lo_mono hs hx hy hij
+    rw [cmpNat_gt] at hcx ⊢
+    omega
+  obtain ⟨h1, h2, h3⟩ := binarySearchBy_mono hmono
+  refine ⟨?_, ?_, ?_⟩
+  · intro i h
+    obtain ⟨hi, he, _⟩ := h1 i h
+    obtain ⟨x, hx, hcx⟩ := probeOf_some he hi
+    exact ⟨x, hx, cmpNat_eq.mp hcx⟩
+  · intro h e he
+    obtain ⟨j, hj, rfl⟩ := List.getElem_of_mem he
+    have := h2 h j hj
+    obtain ⟨y, hy, hcy⟩ := probeOf_some this hj
+    rw [List.getElem?_eq_getElem hj] at hy
+    cases hy
+    exact cmpNat_gt.mp hcy
+  · intro i h
+    obtain ⟨hi, he, hup⟩ := h3 i h
+    obtain ⟨x, hx, hcx⟩ := probeOf_some he hi
+    refine ⟨x, hx, cmpNat_lt.mp hcx, ?_⟩
+    intro e' he' hle
+    obtain ⟨j, hj, rfl⟩ := List.getElem_of_mem he'
+    by_cases hji : j ≤ i
+    · exact sep_lo_mono hs (List.getElem?_eq_getElem hj) hx hji
+    · have := hup j (by omega) hj
+      obtain ⟨y, hy, hcy⟩ := probeOf_some this hj
+      rw [List.getElem?_eq_getElem hj] at hy
+      cases hy
+      have := cmpNat_gt.mp hcy
+      omega
+
 end MdModel.Symbolize
